@@ -1,6 +1,6 @@
 SPECIFICATION Spec
 CONSTANTS
-  Caps = {64, 96}
+  Caps = {64, 144}
   Modes = {"yes", "internal"}
   Kinds = {"node"}
   ULens = {0}
